@@ -503,3 +503,184 @@ Proof.
   assert (Hm : rn_has_marker relayneg_markers_in (concat [split_c1; split_c2]) = true) by (vm_compute; reflexivity).
   specialize (H Hm). vm_compute in H. discriminate H.
 Qed.
+
+(* ------------------------------------------------------------------------------- *)
+(* 6. The tunnelConnected flag *)
+
+(* resetToStandby clears the flag (an unconditional statement after the CAS guard),
+   handshake() sets it from the ACT, addHandshakeBuffer consults it for non-tunnel data *)
+Lemma reset_clears_src_ok : relayneg_reset_clears_tunnel_flag = true.
+Proof. reflexivity. Qed.
+
+Lemma handshake_sets_src_ok : relayneg_handshake_sets_tunnel_flag = true.
+Proof. reflexivity. Qed.
+
+(* "status != kRelayHandshaking || !tunnel && r.tunnelConnected.Load() => { return status, false }" *)
+Lemma parking_rule_src_ok : relayneg_parking_rule_src =
+  [115;116;97;116;117;115;32;33;61;32;107;82;101;108;97;121;72;97;110;100;115;104;97;107;105;110;103;32;124;124;32;33;
+   116;117;110;110;101;108;32;38;38;32;114;46;116;117;110;110;101;108;67;111;110;110;101;99;116;101;100;46;76;111;97;
+   100;40;41;32;61;62;32;123;32;114;101;116;117;114;110;32;115;116;97;116;117;115;44;32;102;97;108;115;101;32;125].
+Proof. reflexivity. Qed.
+
+Lemma rt_reset_hit : forall s fl, rt_reset s (s, fl) = (NStandby, false).
+Proof. intros s fl. unfold rt_reset. cbn [fst snd]. rewrite reset_clears_src_ok. destruct s; reflexivity. Qed.
+
+Lemma rt_reset_cases : forall from st, rt_reset from st = st \/ rt_reset from st = (NStandby, false).
+Proof.
+  intros from [s fl]. unfold rt_reset. cbn [fst snd]. rewrite reset_clears_src_ok.
+  destruct (rn_status_eqb s from); [right | left]; reflexivity.
+Qed.
+
+(* the flagged automaton restricted to a false flag and the main channel is the automaton of
+   section 4 (so C14_recovers speaks about every history in which no ACT claims a tunnel) *)
+Lemma rt_refines_rn : forall s ev,
+  rt_step (s, false) (TMain ev) = (let '(s', f) := rn_step s ev in ((s', false), f)).
+Proof.
+  intros s [c | c det | confirm]; destruct s; cbn [rt_step rn_step]; try reflexivity.
+  - destruct (rn_end_in c); [rewrite rt_reset_hit |]; reflexivity.
+  - destruct det; reflexivity.
+  - destruct (rn_end_out c); [rewrite rt_reset_hit |]; reflexivity.
+  - destruct confirm; [| rewrite rt_reset_hit]; reflexivity.
+Qed.
+
+(* INVARIANT, for every sequence of events whatsoever: in standby the flag is false *)
+Definition flag_inv (st : rt_state) : Prop := fst st = NStandby -> snd st = false.
+
+Lemma flag_inv_step : forall st ev, flag_inv st -> flag_inv (fst (rt_step st ev)).
+Proof.
+  intros [s fl] ev Hinv. unfold flag_inv in *. cbn [fst snd] in Hinv.
+  assert (Hreset : forall from, fst (rt_reset from (s, fl)) = NStandby -> snd (rt_reset from (s, fl)) = false).
+  { intros from. destruct (rt_reset_cases from (s, fl)) as [He | He]; rewrite He; cbn [fst snd]; auto. }
+  destruct ev as [[c | c det | confirm] | tunnel | c | c]; destruct s; cbn [rt_step fst snd];
+    try (intro H; first [discriminate H | exact (Hinv H)]).
+  - destruct fl; cbn [fst snd]; intro H; discriminate H.
+  - destruct (rn_end_in c); cbn [fst snd]; [apply Hreset | intro H; discriminate H].
+  - destruct det; cbn [fst snd]; intro H; [discriminate H | exact (Hinv H)].
+  - destruct fl; [destruct det |]; cbn [fst snd]; intro H; discriminate H.
+  - destruct (rn_end_out c); cbn [fst snd]; [apply Hreset | intro H; discriminate H].
+  - destruct confirm; cbn [fst snd]; [intro H; discriminate H | apply Hreset].
+  - destruct (rn_end_tun_in c); cbn [fst snd]; [apply Hreset | intro H; discriminate H].
+  - destruct (rn_end_tun_out c); cbn [fst snd]; [apply Hreset | intro H; discriminate H].
+Qed.
+
+Lemma rt_final_cons : forall ev evs st, rt_final st (ev :: evs) = rt_final (fst (rt_step st ev)) evs.
+Proof.
+  intros ev evs st. unfold rt_final. cbn [rt_run]. destruct (rt_step st ev) as [s1 f]. cbn [fst].
+  destruct (rt_run s1 evs) as [s2 tr]. reflexivity.
+Qed.
+
+Lemma rt_final_app : forall evs1 evs2 st, rt_final st (evs1 ++ evs2) = rt_final (rt_final st evs1) evs2.
+Proof.
+  induction evs1 as [| ev evs1 IH]; intros evs2 st; [reflexivity |].
+  cbn [app]. rewrite !rt_final_cons. apply IH.
+Qed.
+
+Theorem flag_false_in_standby : forall evs st, flag_inv st -> flag_inv (rt_final st evs).
+Proof.
+  induction evs as [| ev evs IH]; intros st Hinv; [exact Hinv |].
+  rewrite rt_final_cons. apply IH, flag_inv_step, Hinv.
+Qed.
+
+(* hence: whenever the relay is in standby - after any events at all - the next trigger starts
+   a handshake in which main-channel data (the client's ACT) is parked, i.e. read, narrowed
+   and re-sent by the relay instead of reaching the server as it is *)
+Theorem standby_then_parks : forall evs trig act,
+  fst (rt_final (NStandby, false) evs) = NStandby ->
+  rt_final (NStandby, false) (evs ++ [TMain (NOut trig true)]) = (NHandshaking, false) /\
+  rt_step (rt_final (NStandby, false) (evs ++ [TMain (NOut trig true)])) (TMain (NIn act)) =
+    ((NHandshaking, false), FParked).
+Proof.
+  intros evs trig act Hs.
+  assert (Hinv : flag_inv (rt_final (NStandby, false) evs)) by (apply flag_false_in_standby; intro; reflexivity).
+  rewrite rt_final_app. destruct (rt_final (NStandby, false) evs) as [s fl] eqn:Hst.
+  cbn [fst] in Hs. subst s. unfold flag_inv in Hinv. cbn [fst snd] in Hinv. rewrite (Hinv eq_refl).
+  split; reflexivity.
+Qed.
+
+(* histories of transfers with or without a tunnel *)
+Inductive tchunk := KIn (c : list N) | KOut (c : list N) (det : bool) | KTunIn (c : list N) | KTunOut (c : list N).
+
+Definition tev_of (x : tchunk) : rt_event :=
+  match x with
+  | KIn c => TMain (NIn c) | KOut c det => TMain (NOut c det)
+  | KTunIn c => TTunIn c | KTunOut c => TTunOut c
+  end.
+
+Definition tends (x : tchunk) : bool :=
+  match x with
+  | KIn c => rn_end_in c | KOut c _ => rn_end_out c
+  | KTunIn c => rn_end_tun_in c | KTunOut c => rn_end_tun_out c
+  end.
+
+Record ttransfer := mkTTransfer {
+  tt_trigger : list N;
+  tt_before : list tchunk;      (* what arrives before the handshake has decoded the ACT *)
+  tt_act : option bool;         (* the ACT's tunnel field; None = no ACT was ever decoded *)
+  tt_after : list tchunk;       (* what arrives during the rest of the handshake *)
+  tt_confirm : bool;            (* flushHandshakeBuffer(confirm) *)
+  tt_body : list tchunk;        (* traffic (either channel) without an end sign *)
+  tt_final : tchunk }.          (* the chunk with the end sign, on either channel *)
+
+Definition wf_ttransfer (t : ttransfer) : Prop :=
+  tt_confirm t = true -> forallb (fun x => negb (tends x)) (tt_body t) = true /\ tends (tt_final t) = true.
+
+Definition tevents_of (t : ttransfer) : list rt_event :=
+  TMain (NOut (tt_trigger t) true) :: map tev_of (tt_before t) ++
+  (match tt_act t with Some tun => [THsAct tun] | None => [] end) ++ map tev_of (tt_after t) ++
+  TMain (NHsEnd (tt_confirm t)) ::
+  (if tt_confirm t then map tev_of (tt_body t) ++ [tev_of (tt_final t)] else []).
+
+Definition thistory_events (h : list ttransfer) : list rt_event := concat (map tevents_of h).
+
+Lemma handshaking_stays : forall xs fl, rt_final (NHandshaking, fl) (map tev_of xs) = (NHandshaking, fl).
+Proof.
+  induction xs as [| x xs IH]; intro fl; [reflexivity |]. cbn [map]. rewrite rt_final_cons.
+  destruct x as [c | c det | c | c]; cbn [tev_of rt_step]; try (cbn [fst]; apply IH).
+  - destruct fl; cbn [fst]; apply IH.
+  - destruct fl; [destruct det |]; cbn [fst]; apply IH.
+Qed.
+
+Lemma transferring_stays : forall xs fl, forallb (fun x => negb (tends x)) xs = true ->
+  rt_final (NTransferring, fl) (map tev_of xs) = (NTransferring, fl).
+Proof.
+  induction xs as [| x xs IH]; intros fl H; [reflexivity |].
+  cbn [forallb] in H. apply andb_prop in H. destruct H as [Hx Hxs]. apply negb_true_iff in Hx.
+  cbn [map]. rewrite rt_final_cons.
+  destruct x as [c | c det | c | c]; cbn [tev_of rt_step tends] in *; rewrite Hx; cbn [fst]; apply IH; exact Hxs.
+Qed.
+
+Lemma tend_resets : forall x fl, tends x = true -> fst (rt_step (NTransferring, fl) (tev_of x)) = (NStandby, false).
+Proof.
+  intros [c | c det | c | c] fl H; cbn [tev_of rt_step tends] in *; rewrite H; cbn [fst]; apply rt_reset_hit.
+Qed.
+
+Lemma one_ttransfer : forall t, wf_ttransfer t -> rt_final (NStandby, false) (tevents_of t) = (NStandby, false).
+Proof.
+  intros t Hwf. unfold tevents_of. rewrite rt_final_cons. cbn [rt_step fst].
+  rewrite rt_final_app, handshaking_stays.
+  assert (Hact : exists fl, rt_final (NHandshaking, false)
+            (match tt_act t with Some tun => [THsAct tun] | None => [] end) = (NHandshaking, fl)).
+  { destruct (tt_act t) as [tun |]; [exists tun | exists false]; [| reflexivity].
+    unfold rt_final. cbn [rt_run rt_step fst]. rewrite handshake_sets_src_ok. reflexivity. }
+  destruct Hact as [fl Hact]. rewrite rt_final_app, Hact, rt_final_app, handshaking_stays, rt_final_cons.
+  cbn [rt_step]. destruct (tt_confirm t) eqn:Hc; cbn [fst].
+  - destruct (Hwf Hc) as [Hbody Hfin].
+    rewrite rt_final_app, (transferring_stays _ _ Hbody), rt_final_cons, (tend_resets _ _ Hfin). reflexivity.
+  - rewrite rt_reset_hit. reflexivity.
+Qed.
+
+Theorem recovers_tunnel_flag : forall h, Forall wf_ttransfer h ->
+  rt_final (NStandby, false) (thistory_events h) = (NStandby, false).
+Proof.
+  induction h as [| t h IH]; intro Hwf; [reflexivity |].
+  inversion Hwf as [| t0 h0 Ht Hh]; subst t0 h0.
+  unfold thistory_events. cbn [map concat]. rewrite rt_final_app, (one_ttransfer t Ht). apply IH; exact Hh.
+Qed.
+
+(* after every history - tunnel transfers, plain ones, refused, failed, interrupted, in any
+   order - the next trigger is detected, and the ACT of the handshake it starts is parked *)
+Theorem recovers_tunnel_flag_and_parks : forall h trig act, Forall wf_ttransfer h ->
+  rt_final (NStandby, false) (thistory_events h) = (NStandby, false) /\
+  rt_step (NStandby, false) (TMain (NOut trig true)) = ((NHandshaking, false), FRewritten) /\
+  rt_step (NHandshaking, false) (TMain (NIn act)) = ((NHandshaking, false), FParked).
+Proof. intros h trig act Hwf. split; [apply recovers_tunnel_flag; exact Hwf | split; reflexivity]. Qed.
